@@ -4,8 +4,8 @@ CONSTANTS
   Soc0s <- SocAll
   Dts <- Dt2
   Engs <- Bools
-  ClsOn <- BelCls9
-  ClsOff <- BelOff
+  ClsOn <- T4B_On
+  ClsOff <- ClsZero
   Depth = 4
 INVARIANT L1
 INVARIANT L1s
